@@ -277,3 +277,44 @@ CLAIMS["C07"] = {
     "note": "Data equality for arbitrary maps and chains of exports is not "
             "decided.",
 }
+
+CLAIMS["C11"] = {
+    "technique": "funnel (who-may-write) rule over the whole package; "
+                 "abstract evaluation of every converter's dispatch over "
+                 "type tags incl. the numpy scalar hierarchy and the HDF5 "
+                 "attribute image; interpretation of the table-building "
+                 "module code; sibling agreement of the three pattern "
+                 "resolvers",
+    "text": "Every key-level mutation route of ConfigurationDict (incl. "
+            "inherited UserDict mutators) reaches the validating "
+            "__setitem__ and nothing outside config.py writes the raw dict; "
+            "each of the 108 table entries has a converter from the "
+            "declared set and the derived lookup tables agree with it; every "
+            "converter accepts each of its declared output types and what "
+            "the HDF5 attribute layer hands back (idempotence, round trip "
+            "by type), rejection scenarios warn and never store; writer and "
+            "reader pipe values through the converters.",
+    "note": "Value equality through the HDF5 attribute layer (h5py) and the "
+            "text serialisation (Configuration.save / load_from_file) are "
+            "not decided; section-level assignment of plain dicts is out "
+            "of scope.",
+}
+CLAIMS["C13"] = {
+    "technique": "interpretation of the parsed check_* methods, collector, "
+                 "CLI exit-code chain and rectify_metadata on a model "
+                 "dataset and seeded model corruptions; CFG rule that every "
+                 "check returns a list on every path",
+    "text": "Each of the ten inconsistency classes named by the property, "
+            "seeded into a model dataset, is reported at level 'violation' "
+            "by a method that the (interpreted) collector really runs; each "
+            "of the 27 mandatory keys is a violation when removed; the "
+            "collector runs every check_* exactly once with no early exit; "
+            "the CLI exit-code table is total; for all 63 subsets of "
+            "{deform, volume, image, mask, trace, fl1_max} the attributes "
+            "rectify_metadata writes are violation-free for the checks that "
+            "compare data with metadata.",
+    "note": "The closure 'whatever writer/export/CLI produce is violation-"
+            "free' over the writer's whole input space and equality of cue "
+            "lists for a file and its copy are not decided; alert-level "
+            "cues are out of scope.",
+}
